@@ -22,6 +22,9 @@ def check(ctx):
     # a statistic is a function of the kernel's arguments only if no kernel modifies them (the record is shared between bins)
     from ..kernels import check_inputs_untouched
     check_inputs_untouched(ctx)
+    # memoised kernel inputs (detrend basis on host or device) must be keyed by everything they depend on
+    from ..dispatch import check_cache_keys
+    check_cache_keys(ctx, rule="R9-cache-key", about=("basis", "other"))
     from ..dtypes import check_dtypes
     check_dtypes(ctx)
     ctx.call_sites = len(KE.I.call_log)
